@@ -59,6 +59,45 @@ def long_inputs(rep, thorough: bool) -> None:
     rep.extra["long_flat_inputs"] = {"length": n, "calls": count}
 
 
+UNI_GRAMMARS = [
+    'r = { (LETTER | NUMBER | "_" | "::")* ~ EOI }',
+    'r = { (CURRENCY_SYMBOL | "ab") ~ ANY? }',
+    'r = { ("::" | LETTER | ^"x1")+ }',
+    'r = @{ (!(LETTER | "ab") ~ ANY)* ~ ("ab" | UPPERCASE_LETTER)? }',
+    'r = { (ASCII_DIGIT | LETTER | "-" | "--")* }\nWHITESPACE = _{ SPACE_SEPARATOR | "\t" }',
+    'r = { id ~ ("." ~ id)* }\nid = @{ (XID_START | "_") ~ XID_CONTINUE* }',
+    'r = { (EMOJI | "ok" | \'a\'..\'c\')* ~ EOI }',
+]
+UNI_INPUTS = ["", "a", "ab", "a1_::b", "::", ":", "$ab", "\u20acx", "abX1x1", "é\u0301ß", "1--2-\u0663", "a.b._c.\u00e9\u0301", "a b\t\u00a0c", "\U0001f600ok\U0001f601b", "ab\u212a::", "x1X1::", "\ud800a", "-", "--"]
+
+
+def unicode_property_grammars(rep) -> None:
+    """Choices that mix built-in Unicode property rules with literals and ranges (the optimizer fuses some of them): the
+    properties are opaque to the specification, so what is judged is totality, determinism and agreement of the four modes."""
+    from . import modes as M  # noqa: PLC0415
+
+    pest = C.import_pest()
+    n = 0
+    for g in UNI_GRAMMARS:
+        first = {}
+        for mode in M.MODES:
+            try:
+                p, _ = M.build(pest, g, mode)
+            except Exception as e:  # noqa: BLE001
+                rep.violation({"kind": "build", "grammar": g, "mode": mode}, f"{g!r} failed to build in mode {mode}: {type(e).__name__}: {e}")
+                continue
+            for t in UNI_INPUTS:
+                o, o2 = M.run_parse(pest, p, "r", t), M.run_parse(pest, p, "r", t)
+                n += 2
+                if "ok" not in o or o != o2:
+                    rep.violation({"kind": "total", "grammar": g, "mode": mode, "rule": "r", "input": t, "observed": o}, f"{g!r} [{mode}] on {t!r}: {str(o)[:160]}{'' if o == o2 else ' (second call differs)'}")
+                key = (o.get("ok"), str(o.get("pairs")))
+                if first.setdefault(t, key) != key:
+                    rep.violation({"kind": "modes-disagree", "grammar": g, "mode": mode, "rule": "r", "input": t, "observed": o}, f"{g!r} on {t!r}: mode {mode} and mode interp disagree on success / tree")
+    rep.evaluations += n
+    rep.extra["unicode_property_probe_calls"] = n
+
+
 def run(tier: str) -> int:
     rep = C.Report("C07", tier)
     rep.distinct = None
@@ -103,6 +142,7 @@ def run(tier: str) -> int:
     for f in fams:
         replay.run_family(rep, f, "total", modes)
     long_inputs(rep, thorough)
+    unicode_property_grammars(rep)
     rep.rule = "union of the well-formed families of spec/Families.tla x inputs to MaxLen x four execution modes, each call made twice; a case = (grammar, input, start); non-trivial = reference outcome is a successful parse"
     rep.exhaustive = False
     rep.assumptions = ["domain = WellFormed grammars (no left recursion, no undefined rule, no nullable repetition) as in the statement"]
